@@ -29,11 +29,11 @@ type Transaction struct {
 	Payee       string
 	Note        string
 	// PayeeRange covers the payee, or the whole description when there is no note.
-	PayeeRange  Range
-	Postings    []Posting
-	Tags        []Tag
-	Comments    []Comment
-	Range       Range
+	PayeeRange Range
+	Postings   []Posting
+	Tags       []Tag
+	Comments   []Comment
+	Range      Range
 }
 
 type Date struct {
